@@ -37,22 +37,36 @@ theorem C20_total_fails : ¬ C20_total := by
   let m : Module := { modelUuid := ['m'], uuid := ['u'], longName := [], description := [], type := none,
                       reqs := [r], folders := [] }
   obtain ⟨d, hd⟩ := h (fun _ => some []) m rfl (fun _ => rfl)
-  have : «export» (fun _ => some []) m = .error .assertion := export_assertion _ m (by decide)
+  have : «export» (fun _ => some []) m = .error .assertion := export_assertion _ m (by decide) (by decide)
   rw [this] at hd
   cases hd
 
-/-- The exact excluded inputs: without an enumeration attribute that lacks a definition the exporter
-returns the document `doc x m` for every module tree, every text and every converter that accepts
-`<div>` wrappers — in particular blank or comment-only fields and any markup characters. -/
+/-- The exact excluded inputs: without an enumeration attribute that lacks a definition, and without a
+link that violates the metamodel's classes where the exporter looks (`hasClassViolation`: an enumeration
+definition typed by a plain data type, an enumeration attribute defined by a plain definition), the
+exporter returns the document `doc x m` for every module tree, every iteration order of its sets, every
+text and every converter that accepts `<div>` wrappers — in particular blank or comment-only fields and
+any markup characters. -/
 theorem export_total_partial (x : Str → Option Str) (m : Module) (hx : (x emptyDiv).isSome = true)
-    (hdiv : ∀ s, (x (wrapDiv s)).isSome = true) (hE : hasEnumWithoutDef m = false) :
+    (hdiv : ∀ s, (x (wrapDiv s)).isSome = true) (hE : hasEnumWithoutDef m = false)
+    (hC : hasClassViolation m = false) :
     «export» x m = .ok (doc x m) :=
-  export_ok x m hx hdiv hE
+  export_ok x m hx hdiv hE hC
 
-/-- and with such an attribute the outcome is exactly the assertion failure (no document). -/
-theorem export_enum_without_definition (x : Str → Option Str) (m : Module) (hE : hasEnumWithoutDef m = true) :
+/-- and with an enumeration attribute without definition the outcome is exactly the assertion failure
+(no document) on class-correct modules, -/
+theorem export_enum_without_definition (x : Str → Option Str) (m : Module) (hE : hasEnumWithoutDef m = true)
+    (hC : hasClassViolation m = false) :
     «export» x m = .error .assertion :=
-  export_assertion x m hE
+  export_assertion x m hE hC
+
+/-- and in general each of the excluded inputs means that no document is written: the export raises the
+`AssertionError` or the `AttributeError`, whichever the iteration order reaches first. The exclusion is
+exact: `export_total_partial` is the converse. -/
+theorem export_excluded_inputs_fail (x : Str → Option Str) (m : Module)
+    (h : hasEnumWithoutDef m = true ∨ hasClassViolation m = true) :
+    ∃ e, «export» x m = .error e ∧ (e = .assertion ∨ e = .attribute) :=
+  export_no_document x m h
 
 /-- A successful export is the document `doc x m`. -/
 theorem export_eq_doc (x : Str → Option Str) (m : Module) (d : Doc) (h : «export» x m = .ok d) : d = doc x m := by
@@ -74,7 +88,9 @@ theorem refs_closed (x : Str → Option Str) (m : Module) (d : Doc) (h : «expor
   have hE : hasEnumWithoutDef m = false := by
     cases hh : hasEnumWithoutDef m with
     | false => rfl
-    | true => rw [export_assertion x m hh] at h; cases h
+    | true =>
+      obtain ⟨e, he, _⟩ := export_no_document x m (Or.inl hh)
+      rw [he] at h; cases h
   exact refs_closed' x m (req_raw_uuids_nodup m hI) hT hI.dts hE
 
 /-- The reference scheme before the repair is not closed: a definition-less attribute was referenced
@@ -286,10 +302,11 @@ theorem tree_ids_unique (x : Str → Option Str) (e : Env) (md : Metadata) (m : 
 /-- The tree exists exactly when the abstract export succeeds, and then it is the tree of `doc x m`
 under the header built from the metadata. -/
 theorem tree_of_export (x : Str → Option Str) (e : Env) (md : Metadata) (m : Module)
-    (hx : (x emptyDiv).isSome = true) (hdiv : ∀ s, (x (wrapDiv s)).isSome = true) (hE : hasEnumWithoutDef m = false) :
+    (hx : (x emptyDiv).isSome = true) (hdiv : ∀ s, (x (wrapDiv s)).isSome = true) (hE : hasEnumWithoutDef m = false)
+    (hC : hasClassViolation m = false) :
     exportXml x e md m = .ok ((doc x m).toXml (header e md m)) := by
   unfold exportXml
-  rw [export_total_partial x m hx hdiv hE]
+  rw [export_total_partial x m hx hdiv hE hC]
 
 /-! ## the theorems are not vacuous -/
 
@@ -320,7 +337,7 @@ private def conv : Str → Option Str := fun s => some s
 /-- a module with nested folders, a typed and an untyped requirement, attributes with and without
 definition under two types, an enumeration with two choices: it is exported, -/
 example : «export» conv m0 = .ok (doc conv m0) :=
-  export_total_partial conv m0 rfl (fun _ => rfl) (by decide)
+  export_total_partial conv m0 rfl (fun _ => rfl) (by decide) (by decide)
 /-- its depth-first order is r1, r2, r3, -/
 example : m0.dfs.map (·.uuid) = ["r1".toList, "r2".toList, "r3".toList] := by decide
 /-- it has references, all defined, -/
@@ -351,7 +368,7 @@ example : Typed m0 := m0Typed
 /-- so the theorems apply to it: all of its references resolve and its identifiers are distinct, -/
 example : (∀ i ∈ (doc conv m0).refs, i ∈ (doc conv m0).defs) ∧ (doc conv m0).defs.Nodup :=
   have hI : Identity m0 := ⟨by decide, by decide, by decide⟩
-  have hx := export_total_partial conv m0 rfl (fun _ => rfl) (by decide)
+  have hx := export_total_partial conv m0 rfl (fun _ => rfl) (by decide) (by decide)
   ⟨refs_closed conv m0 _ hx hI m0Typed, ids_unique conv m0 _ hx hI⟩
 /-- its uuids are shaped once they look like uuids (here: a variant with hex-and-dash uuids), -/
 example : Ident.Shaped (.attrDef (some "0A-1".toList) none .string) ∧
